@@ -52,91 +52,213 @@ theorem setAll_eq (as : List Ahead) (l : Labels) (x : Bytes) : setAll l as x = s
   funext acc a
   cases h : a.2 <;> simp
 
-/-! ### the decoder reads exactly to the failure point -/
-mutual
-theorem pleavesVal_ok (v : JVal) : (pleavesVal v).2 = !hasBad v := by
-  cases v with
-  | obj kvs => simp only [pleavesVal, hasBad]; exact pleavesKvs_ok kvs
-  | arr xs => simp only [pleavesVal, hasBad]; exact pleavesArr_ok 0 xs
-  | str s => rfl
-  | raw t => rfl
-  | bad => rfl
-theorem pleavesKvs_ok (kvs : JKvs) : (pleavesKvs kvs).2 = !hasBadKvs kvs := by
+/-! ### aheads whose path is exhausted, aheads that go on -/
+theorem deeperOf_nil_of_all (as : List Ahead) (h : (deeperOf as).isEmpty = true) : ∀ a ∈ as, a.2 = [] := by
+  intro a ha
+  have : deeperOf as = [] := List.isEmpty_iff.mp h
+  have hnot : a ∉ deeperOf as := by rw [this]; simp
+  simp only [deeperOf, List.mem_filter, ha, true_and] at hnot
+  simpa using hnot
+
+/-- no path ends here (`len(deeper) == len(aheads)`): every ahead goes on -/
+theorem deeperOf_eq_self (as : List Ahead) (h : ¬ (deeperOf as).length < as.length) : deeperOf as = as := by
+  have hle := List.length_filter_le (fun a : Ahead => !a.2.isEmpty) as
+  have : (as.filter (fun a : Ahead => !a.2.isEmpty)).length = as.length := by
+    simp only [deeperOf] at h; omega
+  exact List.filter_eq_self.mpr (List.length_filter_eq_length_iff.mp this)
+
+/-- a value below the root (non-empty address) serves only the aheads that go on -/
+theorem setMatching_deeper (as : List Ahead) (l : Labels) (seg : PathSeg) (p : List PathSeg) (x : Bytes) :
+    setMatching as l (seg :: p, x) = setMatching (deeperOf as) l (seg :: p, x) := by
+  induction as generalizing l with
+  | nil => rfl
+  | cons a rest ih =>
+    simp only [setMatching, List.foldl_cons, deeperOf, List.filter_cons] at ih ⊢
+    cases hp : a.2 with
+    | nil =>
+      simp only [List.isEmpty_nil, Bool.not_true, Bool.false_eq_true, if_false, reduceCtorEq]
+      exact ih l
+    | cons s r =>
+      simp only [List.isEmpty_cons, Bool.not_false, if_true, List.foldl_cons, hp]
+      exact ih _
+
+theorem foldl_setMatching_deeper (as : List Ahead) (seg : PathSeg) (lv : List (List PathSeg × Bytes)) (l : Labels) :
+    (lv.map (fun pv => (seg :: pv.1, pv.2))).foldl (setMatching as) l =
+      (lv.map (fun pv => (seg :: pv.1, pv.2))).foldl (setMatching (deeperOf as)) l := by
+  induction lv generalizing l with
+  | nil => rfl
+  | cons x xs ih => simp only [List.map_cons, List.foldl_cons, setMatching_deeper as l seg]; exact ih _
+
+theorem foldl_kvs_deeper (as : List Ahead) (kvs : JKvs) (l : Labels) :
+    (pleavesKvs kvs).foldl (setMatching as) l = (pleavesKvs kvs).foldl (setMatching (deeperOf as)) l := by
   cases kvs with
   | nil => rfl
   | cons k v rest =>
-    simp only [pleavesKvs, hasBadKvs]
-    have h1 := pleavesVal_ok v
-    have h2 := pleavesKvs_ok rest
-    cases hb : hasBad v <;> simp [hb] at h1 <;> simp [h1, h2]
-theorem pleavesArr_ok (i : Nat) (xs : JList) : (pleavesArr i xs).2 = !hasBadList xs := by
+    simp only [pleavesKvs, List.foldl_append, foldl_setMatching_deeper as (.key k)]
+    exact foldl_kvs_deeper as rest _
+
+theorem foldl_arr_deeper (as : List Ahead) (i : Nat) (xs : JList) (l : Labels) :
+    (pleavesArr i xs).foldl (setMatching as) l = (pleavesArr i xs).foldl (setMatching (deeperOf as)) l := by
   cases xs with
   | nil => rfl
   | cons v rest =>
-    simp only [pleavesArr, hasBadList]
-    have h1 := pleavesVal_ok v
-    have h2 := pleavesArr_ok (i + 1) rest
-    cases hb : hasBad v <;> simp [hb] at h1 <;> simp [h1, h2]
-end
+    simp only [pleavesArr, List.foldl_append, foldl_setMatching_deeper as (.idx i)]
+    exact foldl_arr_deeper as (i + 1) rest _
 
-/-! ### the walk -/
+/-- the root value itself serves nobody when every ahead goes on -/
+theorem setMatching_root_none (as : List Ahead) (h : deeperOf as = as) (l : Labels) (x : Bytes) :
+    setMatching as l ([], x) = l := by
+  have hall : ∀ a ∈ as, a.2 ≠ [] := by
+    intro a ha
+    rw [← h] at ha
+    simp only [deeperOf, List.mem_filter] at ha
+    intro e; simp [e] at ha
+  clear h
+  induction as generalizing l with
+  | nil => rfl
+  | cons a rest ih =>
+    simp only [setMatching, List.foldl_cons]
+    have : ¬ a.2 = [] := hall a List.mem_cons_self
+    simp only [this, if_false]
+    exact ih l (fun b hb => hall b (List.mem_cons_of_mem _ hb))
+
+/-! ### the walk: on a document read to the end, values in document order; the decoder fails exactly where the document does -/
+/-- what the walk claims for a value: the flag says whether the value could be read, and if so the labels are those
+    of the document-order pass -/
+def WalkOk (r : Labels × Bool) (bad : Bool) (want : Labels) : Prop := r.2 = !bad ∧ (bad = false → r.1 = want)
+
 /-- one member (of an object or an array): `filterAhead`, then `Skip` or `process` on the value -/
 theorem member_step (as' : List Ahead) (l : Labels) (v : JVal)
-    (ih : jppVal as' (l, true) v = ((pleavesVal v).1.foldl (setMatching as') l, (pleavesVal v).2)) :
-    (if as'.isEmpty then (l, !hasBad v) else jppVal as' (l, true) v) =
-      (((pleavesVal v).1.foldl (setMatching as') l, (pleavesVal v).2) : Labels × Bool) := by
+    (ih : WalkOk (jppVal as' (l, true) v) (hasBad v) ((pleavesVal v).foldl (setMatching as') l)) :
+    WalkOk (if as'.isEmpty then (l, !hasBad v) else jppVal as' (l, true) v) (hasBad v)
+      ((pleavesVal v).foldl (setMatching as') l) := by
   cases as' with
-  | nil => simp only [List.isEmpty_nil, if_true, foldl_setMatching_nil, pleavesVal_ok]
-  | cons a rest => simp only [List.isEmpty_cons, Bool.false_eq_true, if_false, ih]
+  | nil => exact ⟨rfl, fun _ => by simp only [List.isEmpty_nil, if_true, foldl_setMatching_nil]⟩
+  | cons a rest => simpa using ih
 
 mutual
-theorem jppVal_leaves (as : List Ahead) (l : Labels) (v : JVal) :
-    jppVal as (l, true) v = ((pleavesVal v).1.foldl (setMatching as) l, (pleavesVal v).2) := by
+theorem jppVal_walk (as : List Ahead) (l : Labels) (v : JVal) :
+    WalkOk (jppVal as (l, true) v) (hasBad v) ((pleavesVal v).foldl (setMatching as) l) := by
   cases v with
-  | obj kvs =>
-    cases as with
-    | nil => simp only [jppVal, List.isEmpty_nil, if_true, pleavesVal, foldl_setMatching_nil, pleavesKvs_ok]
-    | cons a rest =>
-      simp only [jppVal, List.isEmpty_cons, Bool.false_eq_true, if_false, pleavesVal]
-      exact jppKvs_leaves (a :: rest) l kvs
-  | arr xs =>
-    cases as with
-    | nil => simp only [jppVal, List.isEmpty_nil, if_true, pleavesVal, foldl_setMatching_nil, pleavesArr_ok]
-    | cons a rest =>
-      simp only [jppVal, List.isEmpty_cons, Bool.false_eq_true, if_false, pleavesVal]
-      exact jppArr_leaves (a :: rest) 0 l xs
-  | str s => simp only [jppVal, pleavesVal, List.foldl_cons, List.foldl_nil, setAll_eq]
-  | raw t => simp only [jppVal, pleavesVal, List.foldl_cons, List.foldl_nil, setAll_eq]
-  | bad => simp only [jppVal, pleavesVal, List.foldl_nil]
-theorem jppKvs_leaves (as : List Ahead) (l : Labels) (kvs : JKvs) :
-    jppKvs as (l, true) kvs = ((pleavesKvs kvs).1.foldl (setMatching as) l, (pleavesKvs kvs).2) := by
+  | obj text kvs =>
+    simp only [jppVal, pleavesVal, hasBad, List.foldl_cons]
+    by_cases hlt : (deeperOf as).length < as.length
+    · simp only [hlt, if_true]
+      by_cases hb : hasBadKvs kvs = true
+      · simp only [hb, if_true]
+        exact ⟨rfl, fun h => by simp at h⟩
+      · have hb' : hasBadKvs kvs = false := by simpa using hb
+        simp only [hb', Bool.false_eq_true, if_false]
+        by_cases hd : (deeperOf as).isEmpty = true
+        · simp only [hd, if_true]
+          refine ⟨rfl, fun _ => ?_⟩
+          rw [foldl_kvs_deeper, List.isEmpty_iff.mp hd, foldl_setMatching_nil, setAll_eq]
+        · simp only [hd, Bool.false_eq_true, if_false]
+          have := jppKvs_walk (deeperOf as) (setAll l as text) kvs
+          rw [hb'] at this
+          refine ⟨this.1, fun _ => ?_⟩
+          rw [this.2 rfl, foldl_kvs_deeper as, setAll_eq]
+    · have hself := deeperOf_eq_self as hlt
+      simp only [hlt, if_false]
+      cases as with
+      | nil =>
+        simp only [List.isEmpty_nil, if_true]
+        exact ⟨rfl, fun _ => by simp only [foldl_setMatching_nil, setMatching_nil]⟩
+      | cons a rest =>
+        simp only [List.isEmpty_cons, Bool.false_eq_true, if_false]
+        rw [setMatching_root_none (a :: rest) hself]
+        exact jppKvs_walk (a :: rest) l kvs
+  | arr text xs =>
+    simp only [jppVal, pleavesVal, hasBad, List.foldl_cons]
+    by_cases hlt : (deeperOf as).length < as.length
+    · simp only [hlt, if_true]
+      by_cases hb : hasBadList xs = true
+      · simp only [hb, if_true]
+        exact ⟨rfl, fun h => by simp at h⟩
+      · have hb' : hasBadList xs = false := by simpa using hb
+        simp only [hb', Bool.false_eq_true, if_false]
+        by_cases hd : (deeperOf as).isEmpty = true
+        · simp only [hd, if_true]
+          refine ⟨rfl, fun _ => ?_⟩
+          rw [foldl_arr_deeper, List.isEmpty_iff.mp hd, foldl_setMatching_nil, setAll_eq]
+        · simp only [hd, Bool.false_eq_true, if_false]
+          have := jppArr_walk (deeperOf as) 0 (setAll l as text) xs
+          rw [hb'] at this
+          refine ⟨this.1, fun _ => ?_⟩
+          rw [this.2 rfl, foldl_arr_deeper as, setAll_eq]
+    · have hself := deeperOf_eq_self as hlt
+      simp only [hlt, if_false]
+      cases as with
+      | nil =>
+        simp only [List.isEmpty_nil, if_true]
+        exact ⟨rfl, fun _ => by simp only [foldl_setMatching_nil, setMatching_nil]⟩
+      | cons a rest =>
+        simp only [List.isEmpty_cons, Bool.false_eq_true, if_false]
+        rw [setMatching_root_none (a :: rest) hself]
+        exact jppArr_walk (a :: rest) 0 l xs
+  | str s => exact ⟨rfl, fun _ => by simp only [jppVal, pleavesVal, List.foldl_cons, List.foldl_nil, setAll_eq]⟩
+  | raw t => exact ⟨rfl, fun _ => by simp only [jppVal, pleavesVal, List.foldl_cons, List.foldl_nil, setAll_eq]⟩
+  | bad => exact ⟨rfl, fun h => by simp [hasBad] at h⟩
+theorem jppKvs_walk (as : List Ahead) (l : Labels) (kvs : JKvs) :
+    WalkOk (jppKvs as (l, true) kvs) (hasBadKvs kvs) ((pleavesKvs kvs).foldl (setMatching as) l) := by
   cases kvs with
-  | nil => simp only [jppKvs, pleavesKvs, List.foldl_nil]
+  | nil => exact ⟨rfl, fun _ => rfl⟩
   | cons k v rest =>
-    simp only [jppKvs, pleavesKvs]
-    rw [member_step (aheadsFor (.key k) as) l v (jppVal_leaves _ l v)]
-    by_cases h : (pleavesVal v).2 = true
-    · simp only [h, if_true]
-      rw [jppKvs_leaves as _ rest]
-      simp only [List.foldl_append, foldl_setMatching_map]
-    · simp only [h, Bool.false_eq_true, if_false, foldl_setMatching_map]
-theorem jppArr_leaves (as : List Ahead) (i : Nat) (l : Labels) (xs : JList) :
-    jppArr as i (l, true) xs = ((pleavesArr i xs).1.foldl (setMatching as) l, (pleavesArr i xs).2) := by
+    simp only [jppKvs, pleavesKvs, hasBadKvs, List.foldl_append, foldl_setMatching_map]
+    have hm := member_step (aheadsFor (.key k) as) l v (jppVal_walk _ l v)
+    generalize (if (aheadsFor (PathSeg.key k) as).isEmpty = true then (l, !hasBad v)
+      else jppVal (aheadsFor (PathSeg.key k) as) (l, true) v) = r at hm
+    obtain ⟨h1, h2⟩ := hm
+    cases hb : hasBad v with
+    | true =>
+      rw [hb] at h1
+      simp only [h1, Bool.not_true, Bool.false_eq_true, if_false, Bool.true_or]
+      exact ⟨h1, fun h => by simp at h⟩
+    | false =>
+      rw [hb] at h1
+      have hr : r = (r.1, true) := Prod.ext rfl (by simpa using h1)
+      simp only [h1, Bool.not_false, if_true, Bool.false_or]
+      rw [hr, h2 hb]
+      exact jppKvs_walk as _ rest
+theorem jppArr_walk (as : List Ahead) (i : Nat) (l : Labels) (xs : JList) :
+    WalkOk (jppArr as i (l, true) xs) (hasBadList xs) ((pleavesArr i xs).foldl (setMatching as) l) := by
   cases xs with
-  | nil => simp only [jppArr, pleavesArr, List.foldl_nil]
+  | nil => exact ⟨rfl, fun _ => rfl⟩
   | cons v rest =>
-    simp only [jppArr, pleavesArr]
-    rw [member_step (aheadsFor (.idx i) as) l v (jppVal_leaves _ l v)]
-    by_cases h : (pleavesVal v).2 = true
-    · simp only [h, if_true]
-      rw [jppArr_leaves as (i + 1) _ rest]
-      simp only [List.foldl_append, foldl_setMatching_map]
-    · simp only [h, Bool.false_eq_true, if_false, foldl_setMatching_map]
+    simp only [jppArr, pleavesArr, hasBadList, List.foldl_append, foldl_setMatching_map]
+    have hm := member_step (aheadsFor (.idx i) as) l v (jppVal_walk _ l v)
+    generalize (if (aheadsFor (PathSeg.idx i) as).isEmpty = true then (l, !hasBad v)
+      else jppVal (aheadsFor (PathSeg.idx i) as) (l, true) v) = r at hm
+    obtain ⟨h1, h2⟩ := hm
+    cases hb : hasBad v with
+    | true =>
+      rw [hb] at h1
+      simp only [h1, Bool.not_true, Bool.false_eq_true, if_false, Bool.true_or]
+      exact ⟨h1, fun h => by simp at h⟩
+    | false =>
+      rw [hb] at h1
+      have hr : r = (r.1, true) := Prod.ext rfl (by simpa using h1)
+      simp only [h1, Bool.not_false, if_true, Bool.false_or]
+      rw [hr, h2 hb]
+      exact jppArr_walk as (i + 1) _ rest
 end
 
+/-- what the walk found = the document-order definition, on a line that is one readable JSON document; nothing otherwise -/
+theorem jsonFound_meets (valid : Bool) (ps : List Ahead) (doc : JVal) :
+    jsonFound valid ps doc = if valid && !hasBad doc then jsonPathFound ps doc else [] := by
+  obtain ⟨h1, h2⟩ := jppVal_walk ps [] doc
+  simp only [jsonFound, jsonPathFound]
+  cases valid with
+  | false => rfl
+  | true =>
+    cases hb : hasBad doc with
+    | true => rw [hb] at h1; simp [h1]
+    | false => rw [hb] at h1; simp [h1, h2 hb]
+
 /-- **`| json` with parameters, general case** -/
-theorem jsonParams_meets (ps : List Ahead) (doc : JVal) (l : Labels) : jsonParams ps doc l = jsonPathLabels ps doc l := by
-  simp only [jsonParams, jsonPathLabels, jppVal_leaves]
+theorem jsonParams_meets (valid : Bool) (ps : List Ahead) (doc : JVal) (l : Labels) :
+    jsonParams valid ps doc l = jsonPathLabels (valid && !hasBad doc) ps doc l := by
+  simp only [jsonParams, jsonPathLabels, jsonFound_meets]
 
 /-! ### parameters with pairwise different names on a document read to the end: the reading by lookup -/
 theorem bytes_lt_total (a b : Bytes) (h : a ≠ b) (h2 : ¬ a < b) : b < a :=
@@ -232,19 +354,74 @@ theorem jsonPathLabels_distinct (ps : List Ahead) (hd : (ps.map (·.1)).Nodup) (
     simp only [List.foldl_cons]
     exact ih (List.nodup_cons.mp hd).2 _
 
-/-- **no two parameters share a name, the document is read to the end**: the general definition is the reading by
-    lookup, parameter by parameter — each label is the scalar its path leads to, independent of the order of the
-    parameters and of the order of the members in the document -/
-theorem jsonParams_distinct_lookup (ps : List Ahead) (hd : (ps.map (·.1)).Nodup) (doc : JVal) (hb : hasBad doc = false)
-    (l : Labels) : jsonPathLabels ps doc l = jsonParamLabels ps doc l := by
-  simp only [jsonPathLabels, jsonPathLabels_distinct ps hd, jsonParamLabels]
-  congr 1
-  funext acc a
-  have h1 := jsonParams_meets [a] doc acc
-  have h2 := jsonParams_single a.1 a.2 doc acc hb
-  simp only [jsonPathLabels] at h1
-  rw [← h1, h2]
-  simp only [jsonParamLabels, List.foldl_cons, List.foldl_nil]
+theorem foldl_congr_mem {α β : Type} (f g : β → α → β) (l : List α) (h : ∀ acc, ∀ a ∈ l, f acc a = g acc a) (z : β) :
+    l.foldl f z = l.foldl g z := by
+  induction l generalizing z with
+  | nil => rfl
+  | cons x xs ih =>
+    simp only [List.foldl_cons, h z x List.mem_cons_self]
+    exact ih (fun acc a ha => h acc a (List.mem_cons_of_mem _ ha)) _
+
+/-- after one pass per parameter over pairwise different names, the label of a parameter holds what its pass left -/
+theorem get_foldl_setFound (ps : List Ahead) (hd : (ps.map (·.1)).Nodup) (f : Ahead → Option Bytes) (init : Labels)
+    (a : Ahead) (ha : a ∈ ps) :
+    (ps.foldl (fun acc b => setFound acc b.1 (f b)) init).get a.1 = (match f a with | some x => x | none => init.get a.1) := by
+  induction ps generalizing init with
+  | nil => simp at ha
+  | cons b rest ih =>
+    have hn : b.1 ∉ rest.map (·.1) := (List.nodup_cons.mp hd).1
+    have hd' := (List.nodup_cons.mp hd).2
+    simp only [List.foldl_cons]
+    rcases List.mem_cons.mp ha with hab | har
+    · subst hab
+      -- the later passes do not touch this name
+      have hkeep : ∀ (rs : List Ahead) (acc : Labels), a.1 ∉ rs.map (·.1) →
+          (rs.foldl (fun acc b => setFound acc b.1 (f b)) acc).get a.1 = acc.get a.1 := by
+        intro rs
+        induction rs with
+        | nil => intros; rfl
+        | cons c cs ihc =>
+          intro acc hc
+          have hca : a.1 ≠ c.1 := fun e => hc (by simp [e])
+          simp only [List.foldl_cons]
+          rw [ihc _ (fun h => hc (by simp only [List.map_cons, List.mem_cons]; exact Or.inr h))]
+          cases f c with
+          | none => rfl
+          | some x => exact get_set_ne acc c.1 a.1 x hca
+      rw [hkeep rest _ hn]
+      cases f a with
+      | none => rfl
+      | some x => exact get_set_self init a.1 x
+    · rw [ih hd' _ har]
+      have hne : a.1 ≠ b.1 := fun e => hn (e ▸ List.mem_map_of_mem har)
+      cases f a with
+      | some x => rfl
+      | none =>
+        cases f b with
+        | none => rfl
+        | some y => exact get_set_ne init b.1 a.1 y hne
+
+/-- **no two parameters share a name**: the general definition is the reading by lookup, parameter by parameter — each
+    label is the text its path leads to ("" when it leads nowhere, or the line is not a readable document), independent
+    of the order of the parameters and of the order of the members in the document -/
+theorem jsonParams_distinct_lookup (readable : Bool) (ps : List Ahead) (hd : (ps.map (·.1)).Nodup) (doc : JVal)
+    (l : Labels) : jsonPathLabels readable ps doc l = jsonParamLabels readable ps doc l := by
+  simp only [jsonPathLabels, jsonParamLabels]
+  apply foldl_congr_mem
+  intro acc a ha
+  cases readable with
+  | false => rfl
+  | true =>
+    simp only [if_true]
+    congr 1
+    simp only [jsonPathFound, jsonPathLabels_distinct ps hd]
+    have : (fun acc (a : Ahead) => (pleavesVal doc).foldl (setMatching [a]) acc) =
+        (fun acc (a : Ahead) => setFound acc a.1 (lookupPath doc a.2)) := by
+      funext acc a
+      obtain ⟨n, p⟩ := a
+      rw [foldl_setMatching_single, lookupPath_last]
+    rw [this, get_foldl_setFound ps hd (fun a => lookupPath doc a.2) [] a ha]
+    cases lookupPath doc a.2 <;> rfl
 
 variable {V : Type}
 
@@ -252,7 +429,7 @@ theorem parseLabels_meets (E : Env V) (k : ParserKind) (msg : Bytes) (l : Labels
     parseLabels E k msg l = parserLabels E k msg l := by
   cases k with
   | json => exact json_meets _ _
-  | jsonParams ps => exact jsonParams_meets ps _ _
+  | jsonParams ps => exact jsonParams_meets _ ps _ _
   | logfmt => rfl
   | logfmtParams ps => exact logfmtParams_meets _ _ _
 
